@@ -23,7 +23,10 @@ def build_types(spec, tag, warm_roots=None):
             for j, f in enumerate(d["fields"]):
                 ns["f%d" % j] = T[f]
             # "same_name_as": another class of the same __name__ (the documented override: the last one listed is used)
-            t = type("K%s_%d" % (tag, d.get("same_name_as", i)), (xo.Struct,), ns)
+            nm = "K%s_%d" % (tag, d.get("same_name_as", i))
+            if d.get("name_case") == "lower": nm = "kq%s" % tag          # two classes whose names differ only in letter case
+            if d.get("name_case") == "upper": nm = "KQ%s" % tag
+            t = type(nm, (xo.Struct,), ns)
         elif k == "array":
             shape = d["shape"]
             key = tuple(None if s is None else s for s in shape)
@@ -46,7 +49,10 @@ def build_types(spec, tag, warm_roots=None):
     # late edges (may create cycles)
     for i, d in enumerate(spec):
         if d.get("depends"):
-            T[i]._depends_on = [T[j] for j in d["depends"]]
+            if d.get("depends_append") and isinstance(getattr(T[i], "_depends_on", None), list):
+                for j in d["depends"]: T[i]._depends_on.append(T[j])       # registered one by one on the class's own list
+            else:
+                T[i]._depends_on = [T[j] for j in d["depends"]]
         if d.get("late_members"):
             T[i]._reftypes.extend(T[j] for j in d["late_members"])
     return T
@@ -116,6 +122,7 @@ def gen_spec(rng, n):
             cands = [j for j in structs if j != i]
             if cands:
                 spec[i]["depends"] = rng.sample(cands, min(len(cands), rng.choice([1, 1, 2])))
+                if rng.random() < 0.5: spec[i]["depends_append"] = True
     for i, d in enumerate(spec):
         # declared dependencies are honoured on every class kind
         if d["kind"] == "union" and structs and rng.random() < 0.25:
@@ -202,6 +209,12 @@ def main():
                     roots.append(len(spec) - 1)
             c = {"spec": spec, "roots": roots, "warm": (i % 3 == 2) and any(d.get("depends") or d.get("late_members") for d in spec)}
             out.append({"spec": spec, "roots": roots, "warm": c["warm"], "res": run_case(c, do_build=(i < nb))})
+        # directed: two classes whose names differ only in letter case, used together (really built)
+        base = [{"kind": "scalar", "name": "Float64"}, {"kind": "struct", "fields": [0], "name_case": "lower"}, {"kind": "struct", "fields": [0, 0], "name_case": "upper"},
+                {"kind": "struct", "fields": [1, 2]}]
+        for roots in ([3], [2, 1], [1, 2, 3]):
+            c = {"spec": base, "roots": roots}
+            out.append({"spec": base, "roots": roots, "res": run_case(c, do_build=True)})
         # directed: a struct whose reference-holding field comes BEFORE a field of a compound type used nowhere else
         # (Ref / UnionRef / nested reference-holder first), alone as root and with the other type before / after it
         for first in ("ref", "union", "nested"):
